@@ -19,15 +19,73 @@ PROPS = {
                      "impl Default for Stack<T> (delegates to new)"],
     ),
 }
+CORE_ASSUME = [
+    "Verus 0.2026.09.13 + Z3 + vstd's specifications of core/alloc (Vec, Option, Result, Box, Rc, str, Chars, slices) and its UTF-8 theory",
+    "the extractor: token-level copy of the listed functions from /repo on every run plus the closed rewrite table (R1,R2,R3,R4,R9,R10,R15,R16,R17,R18); generated file and line map kept in /verif/out",
+    "std contracts restated on trusted helpers (external_body, body = the original std call): Vec::drain/extend/rev, sort+dedup, String::from, str indexing by a range (vstd specifies only its precondition), str::get -> SliceIndex::get, str::eq_ignore_ascii_case",
+    "a str occupies at most isize::MAX bytes; a Vec<R> holds at most isize::MAX elements; stack depth fits i32 in normalize_index",
+    "Clone returns an equal value for stack elements (SpanOrLiteral) and for rule types (Copy)",
+    "closures passed to combinators are 'lawful': their precondition is implied by the state invariant and they satisfy the frame law and the refusal law (every operation is proved to satisfy both, given that its closure arguments do: induction over call trees). Closures whose preconditions need more than the invariant (stack_peek/stack_pop on a possibly empty stack) and Result::or_else chains (refusal law) are outside this class",
+    "pointer identity of input slices (ptr::eq in Position::span) is not modelled: value equality of the input is proved instead",
+    "functions with ASSUMED contracts (external_body; not proved): CallLimitTracker::limit_reached/default, ParseAttempts::new/try_add_new_stack_rule, BorrowedOrArc::as_str, SpanOrLiteral::as_borrowed_or_rc, Position::span, constrain_idxs, stack_match_peek_slice, Error::new_from_pos*, pairs::new (verified in the pairs unit)",
+    "partial correctness for ParserState::repeat (it legitimately diverges on non-progressing closures)",
+    "configuration verified: feature memchr OFF (skip_until -> skip_until_basic); debug_assertions ON (debug_assert operands are proved)",
+]
+CORE_NOT_COVERED = [
+    "ParserState::stack_push_literal (generic Into<Cow<'static,str>> conversion) and stack_match_peek_slice's matcher (iterator adaptors + closure capturing &mut): contract assumed, not proved",
+    "the memchr-accelerated arms of Position::skip_until (configuration feature=memchr) are not yet under contract",
+    "Result::and_then / or_else are std, not pest; they appear only through the closure laws",
+]
+
 PROPS["C03"] = dict(
     title="Parser-state combinators are all-or-nothing and match exactly",
     verus_units=[("core", {}, "")],
     kani=[], searcher=None,
     design_ref="DESIGN.md section 5, C03",
-    technique="contract-based deductive verification (Verus): frame law on every ParserState combinator with closure laws, exact functional contracts on the Position matchers over vstd's UTF-8 theory; real code extracted from /repo each run",
-    level_text="(in progress)",
-    level_note="(in progress)",
-    assumptions=[], not_covered=[],
+    technique="contract-based deductive verification (Verus): frame law with closure laws on every ParserState combinator, exact functional contracts on the Position matchers over vstd's UTF-8 theory; real code extracted from /repo each run",
+    level_text="Unbounded proof for all call trees built from lawful closures and all inputs: every public ParserState operation is verified against the frame law (input, flags, snapshots below entry depth and earlier tokens untouched) given that its closure arguments obey it; failed sequence / any lookahead restore position, tokens (up to node tags, finding F2) and stack; rule emits exactly one balanced Start/End pair around its body's tokens iff it succeeds outside lookahead/atomic; match_string/insensitive/range/char_by/skip/skip_until_basic have exact iff/advance/stay/boundary postconditions proved from vstd's UTF-8 definitions.",
+    level_note="Assumed: vstd specs, std helper contracts, lawful-closure hypothesis, 9 external_body functions (listed in evidence). memchr configuration and exact relational postconditions of the combinators not yet covered.",
+    assumptions=CORE_ASSUME, not_covered=CORE_NOT_COVERED,
+)
+PROPS["C04"] = dict(
+    title="The token stream is a well-formed tree and every Pairs view agrees with it",
+    verus_units=[("core", {}, "")],
+    kani=[], searcher=None,
+    design_ref="DESIGN.md section 5, C04",
+    technique="contract-based deductive verification (Verus): recursive closed-forest predicate as part of the frame law of every ParserState operation; precondition of pairs::new discharged in state()",
+    level_text="Part (a), emission: proved for all call trees of lawful closures that the tokens appended by any operation form a closed forest (balanced, properly nested, positions non-decreasing, on UTF-8 boundaries, within the text walked), hence every successful parse hands pairs::new a well-formed stream. Part (b), views: see the pairs unit.",
+    level_note="As C03. Display/Debug/JSON/concat views build strings through format!/serde and are outside the Verus subset.",
+    assumptions=CORE_ASSUME, not_covered=CORE_NOT_COVERED + ["Pairs/Pair/FlatPairs/Tokens views: pairs unit (in progress)", "Display, Debug, to_json, concat: format!/serde, not covered"],
+)
+PROPS["C08"] = dict(
+    title="Failure reports point at the furthest failure with sound expectations",
+    verus_units=[("core", {}, "")],
+    kani=[], searcher=None,
+    design_ref="DESIGN.md section 5, C08",
+    technique="contract-based deductive verification (Verus) with a ghost attempt history: exact functional model of track, history invariant preserved by every operation, state() reports attempt_pos and the sorted, deduplicated lists",
+    level_text="Unbounded proof: track is verified against an exact functional model written from the property text (atomic => nothing; exactly-one-child exception; further => restart lists; same position => replace inner attempts; behind => nothing); a ghost set of (rule, position, polarity) events is extended in rule at both track sites; the invariant 'every listed rule is in the history at attempt_pos with the right polarity, no history entry lies beyond attempt_pos, attempt_pos is attained (or 0)' is preserved by every operation and exported by state(), whose Err branch reports attempt_pos (a boundary) and sort+dedup images of the two lists.",
+    level_note="As C03, plus: std sort/dedup contract assumed (sorted, no duplicates, same set); the ghost history is a specification device woven into rule; both back-ends enter through ParserState::rule - their own dispatch code is not under contract.",
+    assumptions=CORE_ASSUME, not_covered=CORE_NOT_COVERED + ["vm/src/lib.rs and generated code dispatch (C01/C02) are not under contract; they reach tracking only through ParserState::rule"],
+)
+PROPS["C12"] = dict(
+    title="A call limit never changes a result silently",
+    verus_units=[("core", {}, "")],
+    kani=[], searcher=None,
+    design_ref="DESIGN.md section 5, C12",
+    technique="contract-based deductive verification (Verus) with a ghost 'refused' bit set where inc_call_check_limit refuses; refusal law proved per operation; three operations violate it (known findings F4)",
+    level_text="Unary formulation of the two-run property: limit constant and counter monotone (frame), inc_call_check_limit refuses iff the limit is reached and records it in a ghost bit, every operation whose closures obey the refusal law obeys it too (a refusal during the call makes the call fail), state() turns an Err with the limit reached into the 'call limit reached' error. optional, repeat and negative lookahead do NOT obey the law: recorded as known findings F4 (isolated failing obligations).",
+    level_note="As C03. Choice is Result::or_else in generated code / the VM (std), outside the contracts; it absorbs refusals the same way (F4).",
+    assumptions=CORE_ASSUME, not_covered=CORE_NOT_COVERED,
+)
+PROPS["C15"] = dict(
+    title="Detailed error tracking is observationally transparent",
+    verus_units=[("core", {}, "")],
+    kani=[], searcher=None,
+    design_ref="DESIGN.md section 5, C15",
+    technique="contract-based deductive verification (Verus): frame obligations at every place that consults parse_attempts.enabled, two-run lemmas derived from the matcher contracts, boundary invariant on max_position",
+    level_text="Proved: handle_token_parse_result, try_add_new_token, nullify_expected_tokens and the detail block inlined in rule change nothing but parse_attempts; for the four matchers a two-run lemma (states equal except parse_attempts => results equal except parse_attempts, same Ok/Err) follows from their contracts; max_position is always a UTF-8 boundary of the input. try_add_new_stack_rule (iterator adaptors, splice) has an assumed contract.",
+    level_note="As C03. Not covered: no-panic of try_add_new_stack_rule's index arithmetic (assumed), rendering of the help message (format!/BTreeMap). Non-interference for rule/state rests on the frame assertions around the guarded blocks plus the syntactic fact that the remembered counters are used only inside them.",
+    assumptions=CORE_ASSUME, not_covered=CORE_NOT_COVERED + ["try_add_new_stack_rule: contract assumed (bounded harness planned)", "parse_attempts_error help text (format!, BTreeMap)"],
 )
 
 PROPS["C16"] = dict(
@@ -46,18 +104,13 @@ PROPS["C16"] = dict(
 NOT_APPLICABLE = {
     "C01": "conformance to PEG semantics is a refinement proof of the VM interpreter + optimizer + meta parser against a formal semantics for all grammars; no function-level contract within reach decides it (its leaf obligations are C03/C04)",
     "C02": "compares emitted source text (quote!) with an interpreter on all grammars and inputs: translation validation, not expressible as a contract on the generator's functions",
-    "C03": "claimed in DESIGN.md; check not built yet in this commit",
-    "C04": "claimed in DESIGN.md; check not built yet in this commit",
     "C05": "semantic preservation of rewriting passes needs a mechanised PEG semantics; passes are closure/iterator traversals outside the Verus subset and too heap-heavy for CBMC",
     "C06": "termination of all accepted grammars is a metatheorem about the validator over a least-fixpoint semantics; only a behaviour-mirroring spec would verify, which would encode rather than decide the property",
     "C07": "round trip through the generated meta parser and a 370-line closure-based AST builder; outside both tools' reach",
-    "C08": "claimed in DESIGN.md; check not built yet in this commit",
     "C09": "totality of the whole front end on arbitrary text; closure/iterator/format-heavy code, CBMC cannot unwind the meta parser on symbolic input",
     "C10": "claimed in DESIGN.md; check not built yet in this commit",
-    "C12": "claimed in DESIGN.md; check not built yet in this commit",
     "C13": "Pratt parsing loop is generic over Peekable<I> and Box<dyn FnMut>; not in the Verus subset, Kani timed out at sequence length 3",
     "C14": "equality of a checked-in generated file with regenerated output: regeneration/differential check, not a contract",
-    "C15": "claimed in DESIGN.md; check not built yet in this commit",
     "C17": "thread-interleaving property; Kani has no threads, Verus would verify a rewritten model",
     "C18": "language equality with RFC 8259 for a derive-generated parser; needs fixpoint contracts for combinators plus an RFC formalisation, beyond this effort",
 }
